@@ -165,6 +165,14 @@ Theorem C01_symjump_halt_sound :
 Proof. exact jump_halt_sound. Qed.
 Print Assumptions C01_symjump_halt_sound.
 
+(* the halting branch of a symbolic JUMP (the inputs whose destination is none of the valid ones) only describes inputs
+   on which the EVM halts with an invalid jump destination *)
+Theorem C01_symjump_invalid_sound :
+  forall (V : Type) (chk : cnd V -> Z) (valid : list Z) (dst : V -> Z) c (v : V),
+    jump_invalid_alternative V chk valid dst = Some c -> c v = true -> ~ In (dst v) valid.
+Proof. exact jump_invalid_sound. Qed.
+Print Assumptions C01_symjump_invalid_sound.
+
 (* vm.assert*: a state that ends as a failed assertion only describes inputs on which the asserted
    relation is indeed false *)
 Theorem C01_assert_failure_sound :
